@@ -329,7 +329,19 @@ func (r *simRun) execOps(ops []term.T, self, primary key.TargetID) {
 				HealValue: term.Float(a[1]),
 			})
 		case "SSample":
-			r.rec(term.C("VSample", idsTerm(eng.Characters()), idsTerm(eng.Enemies()), idsTerm(r.sim.Turn.TurnOrder())))
+			cs, es, to := eng.Characters(), eng.Enemies(), r.sim.Turn.TurnOrder()
+			r.rec(term.C("VSample", idsTerm(cs), idsTerm(es), idsTerm(to)))
+			// the lists handed out belong to the caller (content filters, shuffles and truncates them in place,
+			// e.g. through Retarget): whatever it does to them must not reach the simulation's own lists
+			for _, l := range [][]key.TargetID{cs, es, to} {
+				for i, j := 0, len(l)-1; i < j; i, j = i+1, j-1 {
+					l[i], l[j] = l[j], l[i]
+				}
+				if len(l) > 0 {
+					l[0] = 97
+				}
+				_ = append(l[:0], 98)
+			}
 		default:
 			panic("unknown sop " + n)
 		}
